@@ -5,7 +5,6 @@ package main
 
 import (
 	"bytes"
-	"context"
 	"encoding/binary"
 	"fmt"
 	"io"
@@ -515,5 +514,4 @@ func buildPureTargets(thorough bool) {
 			return "VIOL steps: Next keeps returning operations beyond the input size"
 		})
 	})
-	_ = context.Background
 }
